@@ -161,10 +161,28 @@ def build_code(desc, order=None):
             return ref(t[1])
         return (S.ListType if t[0] == "list" else S.NonNullType)(ty(t[1]))
 
+    def conforming(t):
+        """A Python value every position of type `t` accepts (the code-built counterpart of the SDL literal)."""
+        if t[0] == "nonNull":
+            return conforming(t[1])
+        if t[0] == "list":
+            return []
+        n = t[1]
+        td = gs.desc_type(desc, n)
+        if td is None or td["kind"] == "scalar":
+            return {"Int": 1, "Float": 1.5, "String": "s", "Boolean": True, "ID": "id"}.get(n, 1)
+        if td["kind"] == "enum":
+            return td["values"][0]["name"] if td["values"] else None
+        if td["kind"] == "input":
+            return {}
+        return None
+
     def arg(a, cls):
         kw = {}
-        if a.get("default") is not None:
-            kw["default_value"] = 0
+        if "default_py" in a:
+            kw["default_value"] = a["default_py"]            # an explicit Python value (labelled violations)
+        elif a.get("default") is not None:
+            kw["default_value"] = conforming(a["type"])
         if a.get("python_name"):
             kw["python_name"] = a["python_name"]
         return cls(a["name"], (lambda t=a["type"]: ty(t)), **kw)
@@ -180,7 +198,8 @@ def build_code(desc, order=None):
         if k == "scalar":
             reg[n] = S.ScalarType(n, serialize=lambda x: x, parse=lambda x: x)
         elif k == "enum":
-            reg[n] = S.EnumType(n, [S.EnumValue(v["name"], deprecation_reason=v.get("deprecated")) for v in t["values"]])
+            reg[n] = S.EnumType(n, [S.EnumValue(v["name"], deprecation_reason=v.get("deprecated"),
+                                                **({"value": v["py_value"]} if "py_value" in v else {})) for v in t["values"]])
         elif k == "input":
             reg[n] = S.InputObjectType(n, (lambda t=t: [arg(a, S.InputField) for a in t["fields"]]))
         elif k == "interface":
@@ -422,6 +441,33 @@ def spec_resolver_rules_data(args, params):
     return +out
 
 
+def spec_default_bad(by, ty, v):
+    """Does a declared default (canonical JSON of the Python value) break what its position promises?
+    no null under non-null (any depth); a list under a list type; a 32-bit integer (not a bool) under Int; one of the
+    enum's own values under an enum; a mapping under an input object (values under a field's python name only)."""
+    if ty["k"] == "nonNull":
+        return v is None or spec_default_bad(by, ty["t"], v)
+    if v is None:
+        return False
+    if ty["k"] == "list":
+        return not isinstance(v, list) or any(spec_default_bad(by, ty["t"], x) for x in v)
+    t = by.get(ty["n"])
+    if t is None:
+        return False
+    if t["kind"] == "scalar":
+        if ty["n"] == "Int" and t.get("builtin"):
+            return isinstance(v, bool) or not isinstance(v, int) or not (-2**31 <= v <= 2**31 - 1)
+        return False
+    if t["kind"] == "enum":
+        return not any(x["value"] == v and type(x["value"]) is type(v) for x in t["values"])
+    if t["kind"] == "input":
+        if not isinstance(v, dict) or "$float" in v or "$repr" in v:
+            return True
+        return any((f.get("python_name") or f["name"]) in v and spec_default_bad(by, f["type"], v[f.get("python_name") or f["name"]])
+                   for f in t["input_fields"])
+    return False
+
+
 def spec_rules(d, rv=True):
     out = Counter()
     by = {}
@@ -459,6 +505,8 @@ def spec_rules(d, rv=True):
                 out[dup] += 1          # a repeated name is a uniqueness violation AND the element is examined
             if not is_in(a["type"]):
                 out[notin] += 1
+            elif a["has_default"] and spec_default_bad(by, a["type"], a["default_value"]):
+                out[{"dupArg": "argDefault", "dirDupArg": "dirArgDefault"}[dup]] += 1
             pre.append(a["name"])
 
     def fields(t):
@@ -539,6 +587,8 @@ def spec_rules(d, rv=True):
             for v in t["values"]:
                 if not spec_valid_name(v["name"]):
                     out["invalidName"] += 1
+                if v["value"] is None:
+                    out["enumValueNone"] += 1     # None is how a resolver says null: never serialisable
         elif k == "input":
             if not t["input_fields"]:
                 out["noFields"] += 1
@@ -550,6 +600,8 @@ def spec_rules(d, rv=True):
                     out["dupField"] += 1
                 if not is_in(f["type"]):
                     out["inputFieldNotInput"] += 1
+                elif f["has_default"] and spec_default_bad(by, f["type"], f["default_value"]):
+                    out["inputFieldDefault"] += 1
                 pre.append(f["name"])
     for dd in d["directives"]:
         if not spec_valid_name(dd["name"]):
@@ -940,6 +992,61 @@ def _mk_injections():
         # `Int! = 3` is non-null but NOT required (spec 3.6: additional arguments "must not be required")
         _add_arg(_of(d, pos[0], pos[2]), _a(fresh("xd"), ("nonNull", ("named", "Int")), default="3"))
         return None
+
+    def bad_default_for(d, rng):
+        """(type, python value) pairs the default-value rule must refuse"""
+        en = _first(d, "enum")
+        inp = _first(d, "input")
+        c = [(("nonNull", ("named", "Int")), None), (("named", "Int"), "1"), (("named", "Int"), 2 ** 40), (("named", "Int"), True),
+             (("named", "Int"), 1.5), (("list", ("nonNull", ("named", "Int"))), [1, None]), (("list", ("named", "Int")), 3),
+             (("nonNull", ("list", ("list", ("nonNull", ("named", "String"))))), [["a"], [None]])]
+        if en:
+            c += [(("named", en), "NOT_A_MEMBER"), (("list", ("named", en)), ["NOT_A_MEMBER"])]
+        if inp:
+            c += [(("named", inp), 5), (("named", inp), ["x"])]
+        return rng.choice(c)
+
+    @add("bad_default_arg", lambda d: _fields(d, kinds=("object",)))
+    def _(d, pos, rng):
+        t, v = bad_default_for(d, rng)
+        a = _a(fresh("bd"), t, default="1")
+        a["default_py"] = v
+        _add_arg(gs.desc_type(d, pos[0])["fields"][pos[1]], a)
+        return "argDefault"
+
+    @add("bad_default_input_field", lambda d: _composites(d, ("input",)))
+    def _(d, pos, rng):
+        t, v = bad_default_for(d, rng)
+        if gs.ty_base(t) == pos:
+            t, v = ("named", "Int"), "1"
+        a = _a(fresh("bi"), t, default="1")
+        a["default_py"] = v
+        gs.desc_type(d, pos)["fields"].append(a)
+        return "inputFieldDefault"
+
+    @add("bad_default_directive_arg", lambda d: [()])
+    def _(d, pos, rng):
+        t, v = bad_default_for(d, rng)
+        a = _a("x", t, default="1")
+        a["default_py"] = v
+        d["directives"].append({"name": fresh("db"), "locations": ["FIELD"], "args": [a], "desc": None})
+        return "dirArgDefault"
+
+    @add("good_python_defaults", lambda d: _fields(d, kinds=("object",)))
+    def _(d, pos, rng):
+        en = _first(d, "enum")
+        f = gs.desc_type(d, pos[0])["fields"][pos[1]]
+        for t, v in [(("named", "Int"), -2 ** 31), (("list", ("named", "Int")), [1, None, 2 ** 31 - 1]), (("named", "Float"), "anything"),
+                     (("nonNull", ("list", ("named", "String"))), []), (("named", "Int"), None)] + ([(("named", en), gs.desc_type(d, en)["values"][0]["name"])] if en else []):
+            a = _a(fresh("gd"), t, default="1")
+            a["default_py"] = v
+            _add_arg(f, a)
+        return None
+
+    @add("enum_none_value", lambda d: _composites(d, ("enum",)))
+    def _(d, pos, rng):
+        gs.desc_type(d, pos)["values"].append({"name": fresh("NONE"), "deprecated": None, "desc": None, "py_value": None})
+        return "enumValueNone"
 
     @add("union_member_kind", lambda d: [(u, k) for u in _composites(d, ("union",)) for k in ("scalar", "interface", "enum", "input", "union")], code_only=False)
     def _(d, pos, rng):
@@ -1549,7 +1656,9 @@ def apply_injections(rng, desc, k, only=None, allowed=None):
         rule = inj.apply(d, pos, rng)
         labels.append((inj.name, rule))
         code_only = code_only or inj.code_only
-        if inj.name.startswith("bad_") and pos[-1] not in LEXABLE_BAD:
+        if inj.name.startswith("bad_default") or inj.name in ("good_python_defaults", "enum_none_value"):
+            code_only = True        # Python values: not expressible in SDL
+        elif inj.name.startswith("bad_") and pos[-1] not in LEXABLE_BAD:
             sdl_ok = False
         if t:
             used.add(t)
